@@ -40,13 +40,27 @@ def reaches(ins, tid, pred):
 
 
 def known_lossy(ins, rtid, rb_hex):
-    """classification of a TL1 -> JSON/TL2 -> TL1 difference by the two known lossy encodings (F20, F19)"""
+    """the known lossy encodings a result value runs into: set of F20 (JSON: quote/backslash in a string key of a dictionary),
+    F19 (TL2 and JSON: -0.0 written as the default), F21 (JSON: NaN payload)"""
     b = b"" if rb_hex == "-" else bytes.fromhex(rb_hex)
+    out = set()
     if (b'"' in b or b"\\" in b) and reaches(ins, rtid, lambda x: x["kind"] == "dict" and (key_prim_of(ins, x) or {}).get("name") == "string"):
-        return "F20:json-dict-key-not-unescaped"
-    negz = any(b[i:i + 4] == b"\x00\x00\x00\x80" for i in range(0, len(b) - 3, 4))
-    if negz and reaches(ins, rtid, lambda x: x["kind"] == "prim" and x["name"] in ("float32", "float64")):
-        return "F19:negative-zero-dropped"
+        out.add("F20:json-dict-key-not-unescaped")
+    if reaches(ins, rtid, lambda x: x["kind"] == "prim" and x["name"] in ("float32", "float64")):
+        words = [int.from_bytes(b[i:i + 4], "little") for i in range(0, len(b) - 3, 4)]
+        if 0x80000000 in words:
+            out.add("F19:negative-zero-dropped")
+        if any((w & 0x7ff00000) == 0x7ff00000 and w != 0x7ff00000 and w != 0xfff00000 for w in words) or \
+           any((w & 0x7f800000) == 0x7f800000 and (w & 0x007fffff) for w in words):
+            out.add("F21:json-nan-payload-lost")
+    return out
+
+
+def pick(lossy, order):
+    for k in order:
+        for c in lossy:
+            if c.startswith(k):
+                return c
     return None
 
 
@@ -63,6 +77,7 @@ def run(ctx):
              "ops_valid": 0, "ops_mutated": 0, "ops_wrong_env": 0, "json_roundtrip_same": 0, "tl2_roundtrip_same": 0, "cross_same": 0, "typed_same": 0,
              "kernel_rejected": 0, "budget_skips": 0, "model_enc_none": 0, "verdicts": {}}
     mism, bad, samples, unit_errors, skipped = [], [], [], [], []
+    distinct = set()     # distinct (schema, function, request, result) with a valid result of more than 4 bytes that every transcoder pair reproduced
     lock = threading.Lock()
     rngs = {u.name: random.Random(ctx.rng.getrandbits(64)) for u in st.units}
 
@@ -194,6 +209,7 @@ def run(ctx):
         if os.environ.get("VERIF_DUMP_OPS"):
             Path(os.environ["VERIF_DUMP_OPS"] + f"_{u.name}.txt").write_text("\n".join(f"{a}\t{b}" for a, b in zip(gl, go)) + "\n")
         ubad, umism = [], []
+        udist = set()
         for (l, ml_, k, name), g, m in zip(ops, go, mo):
             s_["ops_" + k] += 1
             gf = g.split(" ")
@@ -213,22 +229,22 @@ def run(ctx):
                 if k == "valid" or flags["j"] == "same":
                     pass
                 rtid = ures[name]
-                lossy = known_lossy(u.ins, rtid, l.split(" ")[3]) if k == "valid" else None
+                lossy = known_lossy(u.ins, rtid, l.split(" ")[3]) if k == "valid" else set()
+                cj, c2, cx = pick(lossy, ["F20", "F19", "F21"]), pick(lossy, ["F19"]), pick(lossy, ["F20", "F19", "F21"])
                 if flags["j"] == "same":
                     s_["json_roundtrip_same"] += 1
                 elif k == "valid":
-                    sig = f"C07:{lossy}:{name}" if lossy else f"C07:json:{u.name}:{name}"
-                    ubad.append((u.name, l, g, sig, "TL1 -> JSON -> TL1 does not reproduce the result bytes"))
+                    ubad.append((u.name, l, g, f"C07:{cj}:{name}" if cj else f"C07:json:{u.name}:{name}", "TL1 -> JSON -> TL1 does not reproduce the result bytes"))
                 if flags["t2"] == "same":
                     s_["tl2_roundtrip_same"] += 1
                 elif flags["t2"] != "na" and k == "valid":
-                    sig = f"C07:{lossy}:{name}" if lossy and lossy.startswith("F19") else f"C07:tl2:{u.name}:{name}"
-                    ubad.append((u.name, l, g, sig, "TL1 -> TL2 -> TL1 does not reproduce the result bytes"))
+                    ubad.append((u.name, l, g, f"C07:{c2}:{name}" if c2 else f"C07:tl2:{u.name}:{name}", "TL1 -> TL2 -> TL1 does not reproduce the result bytes"))
                 if flags["x"] == "same":
                     s_["cross_same"] += 1
                 elif flags["x"] != "na" and k == "valid":
-                    sig = f"C07:{lossy}:{name}" if lossy else f"C07:cross:{u.name}:{name}"
-                    ubad.append((u.name, l, g, sig, "TL2 -> JSON / JSON -> TL2 disagree with TL1 -> JSON / TL1 -> TL2"))
+                    ubad.append((u.name, l, g, f"C07:{cx}:{name}" if cx else f"C07:cross:{u.name}:{name}", "TL2 -> JSON / JSON -> TL2 disagree with TL1 -> JSON / TL1 -> TL2"))
+                if k == "valid" and flags["j"] == "same" and flags["t2"] in ("same", "na") and len(l.split(" ")[3]) > 8:
+                    udist.add((u.name, l))
                 if flags["typed"] == "same":
                     s_["typed_same"] += 1
                 elif flags["typed"] != "na":
@@ -243,6 +259,7 @@ def run(ctx):
                 stats[k] = stats.get(k, 0) + s_[k]
             for k, v in verd.items():
                 stats["verdicts"][k] = stats["verdicts"].get(k, 0) + v
+            distinct.update(udist)
             bad.extend(ubad)
             mism.extend(umism)
             skipped.extend(uskip)
@@ -255,7 +272,7 @@ def run(ctx):
 
     family_report(
         ctx, st, PROPS, ["Prim"], "corr:C07:tr", mism, bad, unit_errors, stats, samples,
-        rule="per schema (repository + random schemas), per function of the generated factory: request values with small nat fields (they shape the result) x result values "
+        rule="non-trivial = distinct (schema, function, request, valid result of more than 4 bytes) reproduced by TL1->JSON->TL1 and TL1->TL2->TL1; per schema (repository + random schemas), per function of the generated factory: request values with small nat fields (they shape the result) x result values "
              "generated at the result type under the request's environment (written by the model), plus mutated result bytes and results written for another request; "
              "oracle on the implementation: TL1->JSON->TL1 and TL1->TL2->TL1 reproduce the consumed result bytes, TL2->JSON and JSON->TL2 agree with TL1->JSON and TL1->TL2, "
              "and, where the result type is a factory object without nat arguments, all agree with typed decode + typed encode; "
@@ -266,5 +283,5 @@ def run(ctx):
         assumptions=["64-bit platform", "the templates are modelled, not verified: agreement shown on the listed functions x requests x results",
                      "TL2 and JSON legs are covered by the Go-side oracle only (the Coq model is TL1-level): partial",
                      "strings in generated values are valid UTF-8 (other byte strings in JSON: C05 / F9)", "the typed path is exercised only where the result type is itself a factory object without nat arguments (the typed ReadResult/WriteResult methods are not in the generic interface)"],
-        extra={"evaluations": stats["ops_valid"] + stats["ops_mutated"] + stats["ops_wrong_env"], "distinct_nontrivial": stats["result_values"],
+        extra={"evaluations": stats["ops_valid"] + stats["ops_mutated"] + stats["ops_wrong_env"], "distinct_nontrivial": len(distinct),
                "skipped_constructs": skipped[:40]})
